@@ -239,14 +239,14 @@ func (s *ServerKeyStore) DescribeKeyRing(path string) (*keystore.KeyDescription,
 			return &keystore.KeyDescription{
 				KeyID:    path,
 				Purpose:  PurposeStorageClient,
-				ClientID: components[clientPrefixIndex],
+				ClientID: components[clientIDIndex],
 			}, nil
 		}
 		if components[clientPrefixIndex] == clientPrefix && components[purposeIndex] == hmacSymmetricSuffix {
 			return &keystore.KeyDescription{
 				KeyID:    path,
 				Purpose:  PurposeSearchHMAC,
-				ClientID: components[clientPrefixIndex],
+				ClientID: components[clientIDIndex],
 			}, nil
 		}
 		if components[clientPrefixIndex] == clientPrefix && components[purposeIndex] == storageSymmetricSuffix {
